@@ -211,7 +211,12 @@ pub fn from_impls(m: &Model, ctx: &mut Ctx, rule: &str) {
         env.insert("choice_str".into(), Val::Sym("choice_str".into()));
         env.insert("self".into(), Val::Opaque("self".into()));
         match ev.eval_block(&iff.then_branch, &mut env) {
-            Ok(_) => {
+            Ok(r) => {
+                // the CHOICE item itself comes first, unchanged
+                let first = match &r { Val::Ctor(n, p, _) if n == "$return" || n == "Ok" => p.first().map(|x| x.show()), o => Some(o.show()) }.unwrap_or_default();
+                if !first.contains("choice_str") {
+                    ctx.violate(rule, "from-impl-keeps-choice", &f.file, crate::rules::util::span_line(iff), &format!("with generate_from_impls the block yields `{}`: the output must start with the unmodified CHOICE item", first.chars().take(80).collect::<String>()));
+                }
                 let got = log.borrow().clone();
                 let want: Vec<String> = types.iter().filter(|t| types.iter().filter(|u| u == t).count() == 1).map(|t| t.to_string()).collect();
                 if got != want {
@@ -228,6 +233,11 @@ pub fn from_impls(m: &Model, ctx: &mut Ctx, rule: &str) {
 /// IMPORTS clause into `use super::<module>::{..}` is evaluated on symbol lists of every spelling class: each imported symbol
 /// is named in the list (types title-cased, values const-cased) or the clause falls back to the wildcard.
 pub fn import_lists(m: &Model, ctx: &mut Ctx, rule: &str) {
+    import_lists_with(m, ctx, rule, false)
+}
+
+/// the same with config.default_wildcard_imports set: then every clause is `*` and nothing else changes
+pub fn import_lists_with(m: &Model, ctx: &mut Ctx, rule: &str, wildcard_option: bool) {
     use crate::eval::{Env, Evaluator, Val};
     use std::collections::BTreeMap as Map;
     let Some(f) = m.fns.iter().find(|f| f.name == "generate_module" && f.self_ty.as_deref() == Some("Rasn")) else {
@@ -266,15 +276,7 @@ pub fn import_lists(m: &Model, ctx: &mut Ctx, rule: &str) {
         }
     };
     let ev = Evaluator { consts: &consts, call_hook: &hook, inline: None };
-    // everything but the final quote!: the list that is spliced into the use declaration is then read from the environment
-    let mut stmts = body.block.stmts.clone();
-    let last = stmts.pop();
-    let list_var = last.as_ref().map(|l| tok(l)).and_then(|t| t.split("#(#").nth(1).map(|r| r.split(')').next().unwrap_or("").to_string())).unwrap_or_default();
-    if list_var.is_empty() {
-        ctx.fail_closed(rule, "generate_module: the import closure does not end in `quote!(use super::#module::{ #(#list),* };)`");
-        return;
-    }
-    let block = syn::Block { brace_token: body.block.brace_token, stmts };
+    let block = body.block.clone();
     let pname = cl.inputs.first().map(|p| tok(p)).unwrap_or("import".into());
     for symbols in [vec!["Port"], vec!["Port", "URL"], vec!["DATE-TIME"], vec!["max-level", "Level"], vec!["T1", "X509-Cert"], vec!["PDU", "port"], vec!["Param{}", "Port"], vec!["MY-CLASS", "Port"]] {
         let key = format!("symbols:{}", symbols.join(","));
@@ -285,25 +287,46 @@ pub fn import_lists(m: &Model, ctx: &mut Ctx, rule: &str) {
         imp.insert("global_module_reference".to_string(), Val::Ctor("GlobalModuleReference".into(), vec![], gm));
         imp.insert("types".to_string(), Val::List(symbols.iter().map(|s| Val::Str(s.to_string())).collect()));
         let mut cfg = Map::new();
-        cfg.insert("default_wildcard_imports".to_string(), Val::Bool(false));
+        cfg.insert("default_wildcard_imports".to_string(), Val::Bool(wildcard_option));
         let mut me = Map::new();
         me.insert("config".to_string(), Val::Ctor("Config".into(), vec![], cfg));
         let mut env = Env::new();
         env.insert("self".into(), Val::Ctor("Rasn".into(), vec![], me));
         env.insert(pname.clone(), Val::Ctor("Import".into(), vec![], imp));
+        // the closure's result is the whole declaration: `use super::<snake(module)>::{<list>};`
         match ev.eval_block(&block, &mut env) {
-            Ok(_) => match env.get(&list_var) {
-                Some(Val::List(l)) => {
-                    let names: Vec<String> = l.iter().map(|v| v.show()).collect();
-                    let wildcard = names.iter().any(|n| n == "*");
-                    let missing: Vec<&&str> = symbols.iter().filter(|s| !names.iter().any(|n| n.ends_with(&format!(":{}", s)))).collect();
-                    if !wildcard && !missing.is_empty() {
-                        ctx.violate(rule, "imported-symbol-not-in-scope", &f.file, crate::rules::util::span_line(cl),
-                            &format!("IMPORTS {} FROM Mod-B is rendered as `use super::mod_b::{{{}}}`: {:?} is imported by the ASN.1 module but not by the Rust module, so a use of it is E0425 (an all-capital name such as URL or PDU is a type reference as well as a possible class reference)", symbols.join(", "), names.join(", "), missing));
+            Ok(v) => {
+                let text = match &v { Val::Sym(t) | Val::Str(t) => t.replace(' ', ""), o => o.show().replace(' ', "") };
+                let inner = text.strip_prefix("usesuper::snake_case:Mod-B::{").and_then(|r| r.strip_suffix("};"));
+                let Some(inner) = inner else {
+                    ctx.violate(rule, "imports:use-line-shape", &f.file, crate::rules::util::span_line(cl),
+                        &format!("IMPORTS {} FROM Mod-B is rendered as `{}`: expected `use super::<snake_case(Mod-B)>::{{..}};` (the sibling Rust module of the module imported from)", symbols.join(", "), text));
+                    continue;
+                };
+                let names: Vec<String> = inner.split(',').filter(|x| !x.is_empty()).map(|x| x.to_string()).collect();
+                let wildcard = names.iter().any(|n| n == "*");
+                if wildcard_option {
+                    if names != vec!["*".to_string()] {
+                        ctx.violate(rule, "imports:wildcard", &f.file, crate::rules::util::span_line(cl), &format!("with default_wildcard_imports the clause IMPORTS {} is rendered as {{{}}}; the option only replaces the list by `*`", symbols.join(", "), names.join(", ")));
+                    }
+                    continue;
+                }
+                let missing: Vec<&&str> = symbols.iter().filter(|s| !names.iter().any(|n| n.ends_with(&format!(":{}", s)))).collect();
+                if !wildcard && !missing.is_empty() {
+                    ctx.violate(rule, "imported-symbol-not-in-scope", &f.file, crate::rules::util::span_line(cl),
+                        &format!("IMPORTS {} FROM Mod-B is rendered as `use super::mod_b::{{{}}}`: {:?} is imported by the ASN.1 module but not by the Rust module, so a use of it is E0425 (an all-capital name such as URL or PDU is a type reference as well as a possible class reference)", symbols.join(", "), names.join(", "), missing));
+                }
+                // each symbol goes through the mangler of its kind: value references const-cased, type references title-cased
+                if !wildcard {
+                    for n in &names {
+                        let (mangler, sym) = n.split_once(':').unwrap_or(("?", n.as_str()));
+                        let want = if sym.starts_with(|c: char| c.is_lowercase()) { "const_case" } else { "title_case" };
+                        if mangler != want {
+                            ctx.violate(rule, "imports:mangler", &f.file, crate::rules::util::span_line(cl), &format!("the imported symbol `{}` is rendered through `{}`; it is declared through to_rust_{} in the module it comes from, so the name does not resolve", sym, mangler, want));
+                        }
                     }
                 }
-                o => ctx.fail_closed(rule, &format!("[{}]: the import list `{}` is {:?}", key, list_var, o.map(|x| x.show()))),
-            },
+            }
             Err(e) => ctx.fail_closed(rule, &format!("[{}]: {}", key, e)),
         }
     }
